@@ -83,14 +83,21 @@ const (
 	StratReflect Strategy = iota
 	StratInterface
 	StratAny
+	StratAnyWrapped
 )
 
-func (s Strategy) String() string { return [...]string{"reflection", "interface", "any"}[s] }
+func (s Strategy) String() string {
+	return [...]string{"reflection", "interface", "any", "any-with-positions"}[s]
+}
 
 // FaultPlan makes chosen resolver invocations fail.
 type FaultPlan struct {
-	// FailAt maps the (1-based) invocation number of a run to a fault kind.
+	// FailAt maps the (1-based) invocation number of a request to a fault kind.
 	FailAt map[int]string
+	// FailPath maps a response path (canonical JSON, known only to strategies
+	// whose nodes carry their position) to a fault kind: every invocation at
+	// that path fails.
+	FailPath map[string]string
 }
 
 // Fault kinds for resolver invocations.
@@ -108,21 +115,45 @@ type Call struct {
 	Type  string
 	Field string
 	Args  string
+	Path  string // "" when the strategy does not know it
+	Leaf  bool
+}
+
+// Fired is one injected failure that was actually reached.
+type Fired struct {
+	N       int
+	Path    string
+	Kind    string
+	Members int // number of error entries the failure must produce
+	Tag     string
 }
 
 // Tracker counts resolver invocations of one request, injects the faults of a
-// plan and keeps the call log. It is request-private (one per ResolveString).
+// plan and keeps the call log. It is request-private (one per resolve call).
 type Tracker struct {
-	Plan  *FaultPlan
-	N     int
-	Calls []Call
-	Fired map[string]int
+	// NoBadLeaf turns un-coercible-leaf faults into plain errors (typed
+	// reflection methods cannot return a value of the wrong type).
+	NoBadLeaf bool
+	Plan      *FaultPlan
+	N         int
+	Calls     []Call
+	Fired     []Fired
 }
 
 // ErrInjectedResolve is the base of injected resolver errors.
 var ErrInjectedResolve = errors.New("injected resolver failure")
 
-func (tr *Tracker) enter(typ, field string, args map[string]interface{}) (kind string, err error) {
+// IsLeafField tells whether a zoo field has a leaf type.
+func IsLeafField(typ, field string) bool {
+	for _, f := range zooTypes[typ] {
+		if f.name == field {
+			return f.typ == "" && field != "tags" && field != "nums"
+		}
+	}
+	return false
+}
+
+func (tr *Tracker) enter(typ, field string, args map[string]interface{}, path string) (kind string, err error) {
 	if tr == nil {
 		return "", nil
 	}
@@ -131,26 +162,40 @@ func (tr *Tracker) enter(typ, field string, args map[string]interface{}) (kind s
 	if len(args) > 0 {
 		a = CanonLite(map[string]interface{}(args))
 	}
-	tr.Calls = append(tr.Calls, Call{N: tr.N, Type: typ, Field: field, Args: a})
+	leaf := IsLeafField(typ, field)
+	tr.Calls = append(tr.Calls, Call{N: tr.N, Type: typ, Field: field, Args: a, Path: path, Leaf: leaf})
 	if tr.Plan == nil {
 		return "", nil
 	}
 	kind = tr.Plan.FailAt[tr.N]
+	if kind == "" && path != "" {
+		kind = tr.Plan.FailPath[path]
+	}
 	if kind == "" {
 		return "", nil
 	}
-	if tr.Fired == nil {
-		tr.Fired = map[string]int{}
+	if kind == FaultBadLeaf && (!leaf || tr.NoBadLeaf) {
+		kind = FaultError
 	}
-	tr.Fired[kind]++
-	tag := "#" + strconv.Itoa(tr.N)
+	if kind == FaultNthError && typ != "list" {
+		kind = FaultError
+	}
+	if typ == "list" {
+		kind = FaultNthError
+	}
+	tag := "#" + strconv.Itoa(tr.N) + "#"
+	f := Fired{N: tr.N, Path: path, Kind: kind, Members: 1, Tag: tag}
+	defer func() { tr.Fired = append(tr.Fired, f) }()
 	switch kind {
 	case FaultError:
 		return kind, errors.New("injected failure " + tag)
 	case FaultGGQLError:
 		return kind, &ggql.Error{Base: errors.New("injected ggql failure " + tag), Extensions: map[string]interface{}{"code": "E" + strconv.Itoa(tr.N)}}
 	case FaultErrorGroup:
+		f.Members = 2
 		return kind, ggql.Errors{errors.New("injected member 1 " + tag), errors.New("injected member 2 " + tag)}
+	case FaultNthError:
+		return kind, errors.New("injected nth failure " + tag)
 	}
 	return kind, nil
 }
@@ -172,6 +217,10 @@ type Query struct {
 	Tags    []string
 	Nums    []int
 	Boss    *Keeper
+
+	// UseListResolver makes the interface strategy return ListResolver values
+	// instead of []interface{}.
+	UseListResolver bool
 
 	tr *Tracker
 }
@@ -225,7 +274,7 @@ type ZooSchema struct {
 
 // Keeper is the reflection method behind Query.keeper.
 func (q *Query) Keeper(name string) (*Keeper, error) {
-	if _, err := q.tr.enter("Query", "keeper", map[string]interface{}{"name": name}); err != nil {
+	if _, err := q.tr.enter("Query", "keeper", map[string]interface{}{"name": name}, ""); err != nil {
 		return nil, err
 	}
 	for _, k := range q.Keepers {
@@ -238,7 +287,7 @@ func (q *Query) Keeper(name string) (*Keeper, error) {
 
 // Echo is the reflection method behind Query.echo.
 func (q *Query) Echo(s string, n int64) (string, error) {
-	if _, err := q.tr.enter("Query", "echo", map[string]interface{}{"s": s, "n": n}); err != nil {
+	if _, err := q.tr.enter("Query", "echo", map[string]interface{}{"s": s, "n": n}, ""); err != nil {
 		return "", err
 	}
 	return s + ":" + strconv.FormatInt(n, 10), nil
@@ -250,7 +299,7 @@ func (k *Keeper) Motto(upper bool) (string, error) {
 	if k.q != nil {
 		tr = k.q.tr
 	}
-	if _, err := tr.enter("Keeper", "motto", map[string]interface{}{"upper": upper}); err != nil {
+	if _, err := tr.enter("Keeper", "motto", map[string]interface{}{"upper": upper}, ""); err != nil {
 		return "", err
 	}
 	if upper {
@@ -261,7 +310,7 @@ func (k *Keeper) Motto(upper bool) (string, error) {
 
 // Rename is the reflection method behind Mutation.rename.
 func (m *Mutation) Rename(old, new string) (*Keeper, error) {
-	if _, err := m.q.tr.enter("Mutation", "rename", map[string]interface{}{"old": old, "new": new}); err != nil {
+	if _, err := m.q.tr.enter("Mutation", "rename", map[string]interface{}{"old": old, "new": new}, ""); err != nil {
 		return nil, err
 	}
 	for _, k := range m.q.Keepers {
@@ -489,20 +538,30 @@ func isNilPtr(v interface{}) bool {
 // ---------------------------------------------------------------------------
 // Interface strategy: every object is wrapped in an INode.
 
-// INode implements ggql.Resolver over a neutral object.
+// INode implements ggql.Resolver over a neutral object. It carries the response
+// path at which it was produced, so the harness knows the position of every
+// resolver invocation independently of the library.
 type INode struct {
-	q *Query
-	v interface{}
+	q    *Query
+	v    interface{}
+	path []interface{}
 }
 
 // IList implements ggql.ListResolver over a neutral slice.
 type IList struct {
 	q    *Query
 	rv   reflect.Value
-	plan *Tracker
+	path []interface{}
 }
 
-func wrapI(q *Query, v interface{}, useList bool) interface{} {
+func extend(path []interface{}, x interface{}) []interface{} {
+	out := make([]interface{}, len(path)+1)
+	copy(out, path)
+	out[len(path)] = x
+	return out
+}
+
+func wrapI(q *Query, v interface{}, path []interface{}, useList bool) interface{} {
 	if isNilPtr(v) {
 		return nil
 	}
@@ -510,7 +569,7 @@ func wrapI(q *Query, v interface{}, useList bool) interface{} {
 	switch rv.Kind() {
 	case reflect.Ptr:
 		if rv.Elem().Kind() == reflect.Struct {
-			return &INode{q: q, v: v}
+			return &INode{q: q, v: v, path: path}
 		}
 	case reflect.Slice:
 		et := rv.Type().Elem()
@@ -518,11 +577,11 @@ func wrapI(q *Query, v interface{}, useList bool) interface{} {
 			return v // typed scalar slices are handled by ggql itself
 		}
 		if useList {
-			return &IList{q: q, rv: rv}
+			return &IList{q: q, rv: rv, path: path}
 		}
 		out := make([]interface{}, rv.Len())
 		for i := range out {
-			out[i] = wrapI(q, rv.Index(i).Interface(), useList)
+			out[i] = wrapI(q, rv.Index(i).Interface(), extend(path, i), useList)
 		}
 		return out
 	}
@@ -534,13 +593,28 @@ func (l *IList) Len() int { return l.rv.Len() }
 
 // Nth implements ggql.ListResolver.
 func (l *IList) Nth(i int) interface{} {
-	return wrapI(l.q, l.rv.Index(i).Interface(), true)
+	return wrapI(l.q, l.rv.Index(i).Interface(), extend(l.path, i), true)
+}
+
+func fieldKey(field *ggql.Field) string {
+	if field.Alias != "" {
+		return field.Alias
+	}
+	return field.Name
 }
 
 // Resolve implements ggql.Resolver.
 func (n *INode) Resolve(field *ggql.Field, args map[string]interface{}) (interface{}, error) {
 	tr := n.q.tr
-	kind, err := tr.enter(typeNameOf(n.v), field.Name, args)
+	path := n.path
+	if _, isSchema := n.v.(*ZooSchema); !isSchema {
+		path = extend(n.path, fieldKey(field))
+	}
+	ps := ""
+	if tr != nil {
+		ps = CanonLite(path)
+	}
+	kind, err := tr.enter(typeNameOf(n.v), field.Name, args, ps)
 	if err != nil {
 		return nil, err
 	}
@@ -551,7 +625,7 @@ func (n *INode) Resolve(field *ggql.Field, args map[string]interface{}) (interfa
 	if kind == FaultBadLeaf {
 		return badLeaf{}, nil
 	}
-	return wrapI(n.q, v, tr != nil && tr.N%2 == 0), nil
+	return wrapI(n.q, v, path, n.q.UseListResolver), nil
 }
 
 type badLeaf struct{}
@@ -559,15 +633,63 @@ type badLeaf struct{}
 // ---------------------------------------------------------------------------
 // Any strategy
 
-// ZooAny implements ggql.AnyResolver over the neutral data.
+// ZooAny implements ggql.AnyResolver over the neutral data. With Wrap set every
+// object and list handed to ggql is a position-carrying wrapper (ANode / AList),
+// which lets the harness key faults by response path; unions then cannot be
+// bound (one Go type for everything), so wrapped roots avoid union fields.
 type ZooAny struct {
-	Q *Query
+	Q    *Query
+	Wrap bool
+}
+
+// ANode is a position-carrying object of the wrapped any strategy.
+type ANode struct {
+	v    interface{}
+	path []interface{}
+}
+
+// AList is a position-carrying list of the wrapped any strategy.
+type AList struct {
+	rv   reflect.Value
+	path []interface{}
+}
+
+func wrapA(v interface{}, path []interface{}) interface{} {
+	if isNilPtr(v) {
+		return nil
+	}
+	rv := reflect.ValueOf(v)
+	switch rv.Kind() {
+	case reflect.Ptr:
+		if rv.Elem().Kind() == reflect.Struct {
+			return &ANode{v: v, path: path}
+		}
+	case reflect.Slice:
+		et := rv.Type().Elem()
+		if et.Kind() == reflect.String || et.Kind() == reflect.Int {
+			return v
+		}
+		return &AList{rv: rv, path: path}
+	}
+	return v
 }
 
 // Resolve implements ggql.AnyResolver.
 func (a *ZooAny) Resolve(obj interface{}, field *ggql.Field, args map[string]interface{}) (interface{}, error) {
 	tr := a.Q.tr
-	kind, err := tr.enter(typeNameOf(obj), field.Name, args)
+	ps := ""
+	var path []interface{}
+	if an, _ := obj.(*ANode); an != nil {
+		obj = an.v
+		path = an.path
+		if _, isSchema := obj.(*ZooSchema); !isSchema {
+			path = extend(an.path, fieldKey(field))
+		}
+		if tr != nil {
+			ps = CanonLite(path)
+		}
+	}
+	kind, err := tr.enter(typeNameOf(obj), field.Name, args, ps)
 	if err != nil {
 		return nil, err
 	}
@@ -581,11 +703,17 @@ func (a *ZooAny) Resolve(obj interface{}, field *ggql.Field, args map[string]int
 	if isNilPtr(v) {
 		return nil, nil
 	}
+	if a.Wrap {
+		return wrapA(v, path), nil
+	}
 	return v, nil
 }
 
 // Len implements ggql.AnyResolver.
 func (a *ZooAny) Len(list interface{}) int {
+	if al, _ := list.(*AList); al != nil {
+		return al.rv.Len()
+	}
 	rv := reflect.ValueOf(list)
 	if rv.IsValid() && rv.Kind() == reflect.Slice {
 		return rv.Len()
@@ -596,17 +724,28 @@ func (a *ZooAny) Len(list interface{}) int {
 // Nth implements ggql.AnyResolver.
 func (a *ZooAny) Nth(list interface{}, i int) (interface{}, error) {
 	tr := a.Q.tr
+	var path []interface{}
+	rv := reflect.ValueOf(list)
+	if al, _ := list.(*AList); al != nil {
+		rv = al.rv
+		path = extend(al.path, i)
+	}
 	if tr != nil && tr.Plan != nil {
-		kind, _ := tr.enter("list", "nth", map[string]interface{}{"i": i})
-		if kind != "" {
-			return nil, errors.New("injected nth failure #" + strconv.Itoa(tr.N))
+		ps := ""
+		if path != nil {
+			ps = CanonLite(path)
+		}
+		if _, err := tr.enter("list", "nth", map[string]interface{}{"i": i}, ps); err != nil {
+			return nil, err
 		}
 	}
-	rv := reflect.ValueOf(list)
 	if rv.IsValid() && rv.Kind() == reflect.Slice && 0 <= i && i < rv.Len() {
 		v := rv.Index(i).Interface()
 		if isNilPtr(v) {
 			return nil, nil
+		}
+		if path != nil {
+			return wrapA(v, path), nil
 		}
 		return v, nil
 	}
@@ -638,10 +777,13 @@ func NewZoo(q *Query, strat Strategy) (*Zoo, error) {
 	case StratReflect:
 		z.Root = ggql.NewRoot(sch)
 	case StratInterface:
-		z.Root = ggql.NewRoot(&INode{q: q, v: sch})
+		z.Root = ggql.NewRoot(&INode{q: q, v: sch, path: []interface{}{}})
 	case StratAny:
 		z.Root = ggql.NewRoot(sch)
 		z.Root.AnyResolver = &ZooAny{Q: q}
+	case StratAnyWrapped:
+		z.Root = ggql.NewRoot(&ANode{v: sch, path: []interface{}{}})
+		z.Root.AnyResolver = &ZooAny{Q: q, Wrap: true}
 	}
 	if err := z.Root.ParseString(ZooSDL); err != nil {
 		return nil, err
